@@ -18,6 +18,7 @@ use std::sync::atomic::{AtomicU64, Ordering};
 use tokio::sync::{mpsc, oneshot};
 use xor_name::XorName;
 
+static NET_LOCK: std::sync::RwLock<()> = std::sync::RwLock::new(());
 static RUN_COUNTER: AtomicU64 = AtomicU64::new(0);
 
 struct RunDir(PathBuf);
@@ -109,6 +110,9 @@ struct Live {
 
 struct World<'a> {
     in_torn_startup: bool,
+    resync_after_restart: bool,
+    /// network id the node currently runs on
+    net_id: u8,
     huge_cache: std::cell::RefCell<std::collections::HashMap<(usize, u32), Vec<u8>>>,
     /// the driver handles no local command at the moment (Step::Stall)
     stalled: bool,
@@ -199,6 +203,8 @@ impl<'a> World<'a> {
         let dists = keys.iter().map(|k| xor_distance(&peer_bytes, &k.bytes)).collect();
         World {
             in_torn_startup: false,
+            resync_after_restart: false,
+            net_id: if plan.net0 == 0 { 1 } else { plan.net0 },
             huge_cache: Default::default(),
             stalled: false,
             plan,
@@ -296,9 +302,18 @@ impl<'a> World<'a> {
         let _ = known_spawns();
         hooks::set_gate_spawns(true);
         hooks::set_local_cmd_channel_size(if self.plan.chan > 0 { Some(self.plan.chan) } else { None });
-        let (network, events, driver) = b
-            .verif_build_node(self.root.clone(), Some(self.plan.capacity), Some(self.plan.cache))
-            .expect("verif_build_node");
+        // the network id is a process-wide setting read once by the start-up (version file check): a start-up for
+        // another network than the default holds the write side of a process-wide lock while the setting is changed
+        let (network, events, driver) = if self.net_id == 1 {
+            let _shared = NET_LOCK.read().unwrap_or_else(|e| e.into_inner());
+            b.verif_build_node(self.root.clone(), Some(self.plan.capacity), Some(self.plan.cache)).expect("verif_build_node")
+        } else {
+            let _exclusive = NET_LOCK.write().unwrap_or_else(|e| e.into_inner());
+            ant_protocol::version::set_network_id(self.net_id);
+            let r = b.verif_build_node(self.root.clone(), Some(self.plan.capacity), Some(self.plan.cache));
+            ant_protocol::version::set_network_id(1);
+            r.expect("verif_build_node")
+        };
         hooks::set_local_cmd_channel_size(None);
         self.live = Some(Live {
             driver,
@@ -443,11 +458,26 @@ impl<'a> World<'a> {
                 }
                 _ => {}
             }
+            let acked: Option<usize> = match &cmd {
+                LocalSwarmCmd::AddLocalRecordAsStored { key, .. } => self.rkeys.iter().position(|k| k == key),
+                _ => None,
+            };
             let res = self.driver().verif_handle_local_cmd(cmd);
             self.rep
                 .log(format!("  handled {} -> {}", text, if res.is_ok() { "ok" } else { "err" }));
             self.settle_s().await;
             let fresh = self.absorb(cause);
+            if let Some(i) = acked {
+                // the acknowledgement of a completed write schedules the unlinking of that key's file although the last
+                // foreground operation on the key is an accepted put (nobody asked for the key to go, and it is not in
+                // the race of a remove with a write in flight): the durable model is not updated by that task
+                for g in &fresh {
+                    if g.site == "store.delete" && self.gate_owner.get(&g.id) == Some(&Owner::Key(i)) && matches!(self.keys[i].expect, Expect::Value(_)) && self.keys[i].race.is_none() {
+                        self.spurious_deletes.insert(g.id);
+                        self.rep.probe("acknowledgement_scheduled_delete_of_a_wanted_file");
+                    }
+                }
+            }
             self.note_store_gates(&fresh);
         }
         while let Some(cmd) = self.driver().verif_try_recv_network_cmd() {
@@ -1058,12 +1088,39 @@ impl<'a> World<'a> {
         self.settle_s().await;
         let _ = self.absorb(Owner::Other);
         // restart oracle
+        let resync = std::mem::take(&mut self.resync_after_restart);
         for key in 0..self.keys.len() {
             if key >= self.plan.n_keys && self.plan.filler > 0 {
                 continue;
             }
             let got = self.get(key);
             let has = self.has(key);
+            if resync {
+                // restart on another network: whatever the node serves now (nothing, after the wipe) is the new
+                // durable state; S1 still applies to it
+                let _ = self.check_read(key, &got, "network_change");
+                let handed = self.keys[key].handed.clone();
+                let v = got.as_ref().and_then(|r| handed.iter().rev().find(|v| self.value_bytes(key, **v) == r.value).copied());
+                self.keys[key].gone_expected = false;
+                self.keys[key].file = match v {
+                    Some(v) if has => FileState::Complete(v),
+                    _ => FileState::Absent,
+                };
+                self.keys[key].expect = match self.keys[key].file {
+                    FileState::Complete(v) => Expect::Value(v),
+                    _ => Expect::Absent,
+                };
+                self.indexed[key] = matches!(self.keys[key].file, FileState::Complete(_));
+                if matches!(self.keys[key].file, FileState::Absent) {
+                    // a file the node left behind but does not serve would confuse the durable model: there is none
+                    // after a wipe; if there is one, the next restart may serve it
+                    if self.store_dir().join(hex::encode(&self.keys[key].bytes)).is_file() {
+                        self.rep.probe("file_left_behind_after_network_change");
+                        self.keys[key].file = FileState::Garbage;
+                    }
+                }
+                continue;
+            }
             if self.keys[key].gone_expected {
                 // "completed removals stay removed"
                 self.keys[key].gone_expected = false;
@@ -1149,6 +1206,15 @@ impl<'a> World<'a> {
                 self.rep.fault("startup_stopped_while_rewriting_the_version_file");
                 self.rep.log(format!("start-up stopped after writing {cut} of {} bytes of the version file; next start-up", full.len()));
                 Box::pin(self.crash_and_restart("torn_startup")).await;
+                self.in_torn_startup = false;
+            }
+            // the timeline continues from the version file the complete start-up left (byte for byte), not from what
+            // the start-ups after the interrupted ones repaired it to
+            if self.rep.violations.is_empty() {
+                self.live = None;
+                let _ = std::fs::write(&version_file, &full);
+                self.in_torn_startup = true;
+                Box::pin(self.crash_and_restart("after_torn_startup")).await;
                 self.in_torn_startup = false;
             }
         }
@@ -1584,6 +1650,26 @@ impl<'a> World<'a> {
                 self.rep.fault("crash");
                 self.rep.log(format!("step {n}: {what}; restart"));
                 self.crash_and_restart("crash").await;
+            }
+            Step::RestartOnNetwork { id } => {
+                let id = (*id).max(1);
+                self.settle_all().await;
+                if self.rep.harness_error.is_none() {
+                    self.check_quiescent("before_restart");
+                }
+                if id == self.net_id {
+                    self.rep.fault("clean_restart");
+                    self.rep.log("clean restart");
+                    self.crash_and_restart("clean_restart").await;
+                } else {
+                    self.rep.fault("restart_on_another_network");
+                    self.rep.log(format!("restart on another network: id {} -> {id}", self.net_id));
+                    self.net_id = id;
+                    // nothing is required of this restart (the node drops the other network's records): the durable
+                    // model is taken from what the restarted node serves
+                    self.resync_after_restart = true;
+                    self.crash_and_restart("network_change").await;
+                }
             }
             Step::Restart => {
                 self.settle_all().await;
